@@ -24,6 +24,8 @@ type c16Case struct {
 	Exclude []string     `json:"exclude,omitempty"`
 	Dst     string       `json:"dst"` // empty | populated | conflict
 	Repl    bool         `json:"repl,omitempty"`
+	Chown   bool         `json:"chown,omitempty"` // requested owner 1000:1000
+	Utime   bool         `json:"utime,omitempty"` // requested timestamp
 }
 
 func (c c16Case) String() string {
@@ -32,6 +34,9 @@ func (c c16Case) String() string {
 		if n.HL != 0 {
 			s += fmt.Sprintf(" %s:hl%d", n.Path, n.HL)
 		}
+	}
+	if c.Chown || c.Utime {
+		s += fmt.Sprintf(" chown=%v utime=%v", c.Chown, c.Utime)
 	}
 	return s
 }
@@ -75,6 +80,13 @@ func judgeC16(c c16Case) (string, string) {
 	}
 	before, _ := fsmodel.Snapshot(dst)
 	ci := fscopy.CopyInfo{IncludePatterns: c.Include, ExcludePatterns: c.Exclude, CopyDirContents: true, AlwaysReplaceExistingDestPaths: c.Repl}
+	if c.Chown {
+		ci.Chown = func(*fscopy.User) (*fscopy.User, error) { return &fscopy.User{UID: 1000, GID: 1000}, nil }
+	}
+	if c.Utime {
+		t := c13Time
+		ci.Utime = &t
+	}
 	if c.Dst == "conflict" {
 		// only one thing is judged here: nothing at a path the patterns do not select is touched
 		kept, kerr := naiveKept(c.Tree, c.Include, c.Exclude)
@@ -179,14 +191,23 @@ func judgeC16(c c16Case) (string, string) {
 		if before.Find(p) != nil && s.Kind == fsmodel.Dir {
 			continue
 		}
-		if s.Perm != d.Perm || s.UID != d.UID || s.GID != d.GID || !sameXattrs(s.Xattrs, d.Xattrs) {
+		wantUID, wantGID := s.UID, s.GID
+		if c.Chown {
+			wantUID, wantGID = 1000, 1000 // every copied entry, on-demand ancestors included, carries the requested owner
+		}
+		if s.Perm != d.Perm || wantUID != d.UID || wantGID != d.GID || !sameXattrs(s.Xattrs, d.Xattrs) {
 			cls := "entry-metadata"
 			if s.Kind == fsmodel.Dir && !kept[p] {
 				cls = "ancestor-metadata"
 			}
 			return cls, fmt.Sprintf("%s: mode %o owner %d:%d xattrs %v, source has %o %d:%d %v", p, d.Perm, d.UID, d.GID, d.Xattrs, s.Perm, s.UID, s.GID, s.Xattrs)
 		}
-		if s.Kind != fsmodel.Dir && s.Mtime != d.Mtime {
+		if c.Utime {
+			// (the property leaves the timestamps of on-demand ancestors open)
+			if (s.Kind != fsmodel.Dir || kept[p]) && d.Mtime != c13Time.UnixNano() {
+				return "entry-mtime:requested", fmt.Sprintf("%s: mtime %d, requested %d", p, d.Mtime, c13Time.UnixNano())
+			}
+		} else if s.Kind != fsmodel.Dir && s.Mtime != d.Mtime {
 			return "entry-mtime", fmt.Sprintf("%s: mtime %d want %d", p, d.Mtime, s.Mtime)
 		}
 	}
@@ -271,6 +292,17 @@ func runC16(r *evid.Run) {
 						cases = append(cases, c16Case{Tree: t, Include: in, Exclude: ex, Dst: "empty"})
 					}
 				}
+			}
+		}
+	}
+	// requested owner and timestamp together with patterns: on-demand ancestors are copied entries too
+	for ti, t := range trees {
+		if ti >= 3 {
+			break
+		}
+		for _, in := range patternLists(1, c10Patterns) {
+			for _, ex := range patternLists(1, c10Patterns) {
+				cases = append(cases, c16Case{Tree: t, Include: in, Exclude: ex, Dst: "empty", Chown: true}, c16Case{Tree: t, Include: in, Exclude: ex, Dst: "empty", Chown: true, Utime: true})
 			}
 		}
 	}
